@@ -31,7 +31,7 @@ type Effect struct {
 	Pos   token.Pos
 	Fn    *ssa.Function // function containing the instruction
 	Ins   ssa.Instruction
-	Local bool // store into a local (non-escaping) allocation
+	Local bool     // store into a local (non-escaping) allocation
 	Act   *Summary // activation the instruction was evaluated in
 }
 
@@ -51,7 +51,7 @@ type Summary struct {
 	Env     map[ssa.Value]*E
 	Panics  Ref // condition under which an explicit panic is reached
 	Loops   int
-	Mem     map[string]*E // forwarded memory at the end of the activation (address key -> value)
+	Mem     map[string]*E   // forwarded memory at the end of the activation (address key -> value)
 	Parent  *Summary        // inlined activations: the calling activation
 	Site    ssa.Instruction // inlined activations: the call instruction in the parent
 }
@@ -427,7 +427,7 @@ func (f *frame) addEffect(e Effect) {
 	e.Act = f.sum
 	if (e.Kind == "store" || e.Kind == "mapupdate") && e.Val != nil && e.Cond != True {
 		// the written value as it is on the paths that reach the write
-		e.Val = f.g.U.Under(e.Val, e.Cond)
+		e.Val = f.g.U.Specialize(e.Val, e.Cond)
 	}
 	f.sum.Effects = append(f.sum.Effects, e)
 }
@@ -499,6 +499,13 @@ func (f *frame) zero(t types.Type) *E {
 
 func (f *frame) store(addr, val *E, rc Ref, in ssa.Instruction) {
 	u := f.g.U
+	if addr.Op == "ite" {
+		// a store through a pointer selected by a condition is a store to each candidate under
+		// its condition
+		f.store(addr.Args[0], val, u.bdd.And(rc, addr.B), in)
+		f.store(addr.Args[1], val, u.bdd.And(rc, u.bdd.Not(addr.B)), in)
+		return
+	}
 	k := f.memKey(addr)
 	local := strings.HasPrefix(k, "L:")
 	old, ok := f.mem.m[k]
